@@ -38,6 +38,34 @@ class Prop(BaseProp):
         out = []
         self.groups = []
         ops = ['rf_' + c for c in CONST_VALUES] + list(SAME) + OTHER
+        def emit(ty, op, a, aux):
+            ids = []
+            def add(t, o, args, aux=()):
+                c = Case('c%d' % len(out), t, o, args, aux, tag=op)
+                out.append(c)
+                ids.append(c.id)
+            nargs = vlib.OPS[op][2]
+            add(ty, op, a, aux)
+            if op in SAME:
+                add(ty, SAME[op], a, aux)
+            if op.startswith('simd_'):
+                pass
+            elif nargs >= 1 and not op.startswith('rf_is') and op not in ('cf_from_real',):
+                add(F, op, [re_bits(x, ty) for x in a], aux)           # the same method on plain floats
+            elif op.startswith('rf_is'):
+                add(F, op, [re_bits(x, ty) for x in a], aux)
+            self.groups.append((op, ids))
+        # selection methods at the sign / zero special values of the deciding operand (every type, every run): a signed zero or an infinity as the
+        # sign of copysign, ties and signed zeros for max / min / clamp, signed zeros for the sign predicates
+        INF = float('inf')
+        specials = [('rf_copysign', (None, s)) for s in (-0.0, 0.0, -INF, INF, -1.0, 1.0)]
+        specials += [(m, pr) for m in ('rf_max', 'rf_min') for pr in ((0.0, -0.0), (-0.0, 0.0), (1.0, 1.0), (-2.0, -2.0))]
+        specials += [('rf_clamp', pr) for pr in ((-0.0, 0.0, 1.0), (0.0, -1.0, -0.0), (1.0, 1.0, 2.0), (2.0, 1.0, 2.0))]
+        specials += [(m, (z,)) for m in ('rf_is_sign_positive', 'rf_is_sign_negative', 'cf_abs') for z in (0.0, -0.0)]
+        for ty in tys:
+            for op, res in specials:
+                a = [genvals.gen_value(rng, ty, genvals.leaf_rand, re_leaf=(lambda r, v=v: r.choice([r.uniform(-3, 3), -r.uniform(0.5, 3)]) if v is None else v)) for v in res]
+                emit(ty, op, a, [])
         k = 0
         while len(out) < n:
             ty = tys[k % len(tys)]
@@ -52,21 +80,7 @@ class Prop(BaseProp):
                 dom = lambda r: r.choice([r.uniform(-3, 3), r.uniform(-3, 3), 0.0, -0.0, 1.0, -1.0])
             aux = [rng.choice([0, 1, 2, 3, -2, 5])] if op == 'cf_powi' else []
             a = [genvals.gen_value(rng, ty, genvals.leaf_rand, re_leaf=dom) for _ in range(nargs)]
-            ids = []
-            def add(t, o, args, aux=()):
-                c = Case('c%d' % len(out), t, o, args, aux, tag=op)
-                out.append(c)
-                ids.append(c.id)
-            add(ty, op, a, aux)
-            if op in SAME:
-                add(ty, SAME[op], a, aux)
-            if op.startswith('simd_'):
-                pass
-            elif nargs >= 1 and not op.startswith('rf_is') and op not in ('cf_from_real',):
-                add(F, op, [re_bits(x, ty) for x in a], aux)           # the same method on plain floats
-            elif op.startswith('rf_is'):
-                add(F, op, [re_bits(x, ty) for x in a], aux)
-            self.groups.append((op, ids))
+            emit(ty, op, a, aux)
         return out
 
     def model_applicable(self, case):
